@@ -429,6 +429,40 @@ def fam_inject(rng, n, tag="inj"):
         out.append((c, d))
     return out
 
+def fam_inject_silent(rng, n, tag="injs"):
+    """C08: the genuine peer falls silent (dies) while foreign-magic / unknown-sender packets keep
+    arriving from its address: the silence must be noticed exactly as in the clean run (same
+    NetworkInterrupted / Disconnected events, same frames).  Returns pairs (clean, dirty)."""
+    out = []
+    kinds = [
+        lambda r: ("input", r.choice([1, 2, 3]), 2, r.randrange(0, 200), -1, r.choice(["0401", "02040502030d", "-", "80"])),
+        lambda r: ("keepalive", 1234),
+        lambda r: ("ack", 4321, r.randrange(0, 500)),
+        lambda r: ("checksum", 999, r.randrange(0, 300)),
+        lambda r: ("syncreply", r.choice([1, 2, 3]), r.randrange(1 << 30)),
+    ]
+    for i in range(n):
+        seed = rng.randrange(1 << 30)
+        r2 = __import__("random").Random(seed)
+        to = r2.choice([600, 1000, 2000]); no = r2.choice([200, 500])
+        w = r2.choice([0, 2, 8])
+        t_die = r2.randrange(400, 1500)
+        end = t_die + to + 1500
+        def mk(dirty):
+            s = Scen("%s_%d%s" % (tag, i, "d" if dirty else "c"), players=2, window=w, lat=10, seed=seed, inputrun=2, timeout=to, notify=no)
+            s.p2p(1, [0]); s.p2p(2, [1])
+            s.ticks(1, 0, end, 16); s.ticks(2, 5, t_die, 16)
+            s.at(t_die, "kill", 2)
+            return s
+        c, d = mk(False), mk(True)
+        t = t_die + r2.randrange(0, 100)
+        step = r2.choice([40, 90, 150])
+        while t < end:
+            d.at(t, "inject", 2, 1, *r2.choice(kinds)(r2))
+            t += step
+        out.append((c, d))
+    return out
+
 def fam_misuse(rng, n, tag="mis"):
     out = []
     kinds = ["input-nonlocal", "input-unknown", "disc-local", "disc-unknown", "delay-remote", "delay-unknown", "stats-local", "stats-unknown"]
